@@ -254,6 +254,9 @@ class DimArray(AbstractDimArray, OpMixin, GetSetDelAttrMixin):
         # array values
         #
         # if masked array, replace mask by NaN
+        if isinstance(values, np.ma.MaskedArray) and not np.ma.is_masked(values):
+            values = values.data # nothing is masked: keep the data and its dtype (e.g. integers read from netCDF)
+
         if isinstance(values, np.ma.MaskedArray):
             try:
                 values = values.filled(np.nan) # fill mask with nans
